@@ -871,6 +871,12 @@ class ClientSession:
                                 or _TARGET_FORBIDDEN_CTL_RE.search(r_host)
                             ):
                                 raise ValueError("control character in host")
+                            if not self._requote_redirect_url and " " in r_url:
+                                # SP delimits the request line: it is quoted
+                                # even when the rest is taken as is
+                                parsed_redirect_url = URL(
+                                    r_url.replace(" ", "%20"), encoded=True
+                                )
                         except (ValueError, IndexError) as e:
                             # yarl raises IndexError for an authority with an
                             # empty host after a bracketed userinfo
